@@ -212,12 +212,19 @@ func sshSimMain(args []string) int {
 		if lookup == "exit" {
 			return 0
 		}
+		noPrompt := false
 		if out := cmd2out[lookup]; out != "" {
+			// `<NOPROMPT>` at the end: the output brings its own prompt (e.g. `router>`)
+			if strings.HasSuffix(out, "<NOPROMPT>\n") {
+				out, noPrompt = strings.TrimSuffix(out, "<NOPROMPT>\n"), true
+			}
 			if !s.sendLine(out) {
 				return 0
 			}
 		}
-		s.write(device + "#")
+		if !noPrompt {
+			s.write(device + "#")
+		}
 	}
 }
 
@@ -531,6 +538,8 @@ type runOutcome struct {
 	simOut         string // SSH: bytes the simulated device wrote
 	simEv          string
 	simTl          string
+	noEcho         bool // the device did not echo at a password prompt (computed by the model from the chunks)
+	stepsDone      bool
 	logDir         string
 }
 
@@ -563,7 +572,7 @@ func (e *c17Env) execRun(c *runCase, no int) *runOutcome {
 	})
 	info := fmt.Sprintf("{\n \"model\": %q,\n \"name_list\": [ \"router\" ],\n \"ip_list\": [ \"10.1.13.33\" ]\n}\n", c.Dev)
 	netspoc := ""
-	out := &runOutcome{files: map[string]string{}}
+	out := &runOutcome{files: map[string]string{}, noEcho: true}
 	var sim *httpSim
 	os.Unsetenv("TEST_TIME")
 	switch c.Dev {
@@ -644,7 +653,7 @@ func (e *c17Env) execRun(c *runCase, no int) *runOutcome {
 	case "ASA", "IOS", "Linux":
 		sc := map[string]string{"ASA": scASA, "IOS": scIOS, "Linux": scLinux}[c.Dev]
 		// flavours of the login dialogue (bits 1-2 of Variant)
-		switch fl := (c.Variant / 2) % 4; {
+		switch fl := (c.Variant / 2) % 8; {
 		case fl == 1 && c.Dev == "ASA":
 			// known host key, privileged at once, terminal already set up
 			sc = strings.Replace(sc, "Are you sure you want to continue connecting (yes/no)?<!>\n", "", 1)
@@ -659,6 +668,12 @@ func (e *c17Env) execRun(c *runCase, no int) *runOutcome {
 			sc = strings.Replace(sc, "# enable\nPassword:<?>\n", "", 1) // enable without password
 		case fl == 3 && c.Dev == "IOS":
 			sc = strings.Replace(sc, "Enter Password:<?>", "The authenticity of host 'router' can't be established.\nAre you sure you want to continue connecting (yes/no)? <!>\nEnter Password: <?>", 1)
+		case fl == 4 && c.Dev == "IOS":
+			// no enable secret configured: `enable` is refused without a password prompt, the prompt stays `>`
+			sc = strings.Replace(sc, "# enable\nPassword:<?>\n", "# enable\n% No password set\nrouter><NOPROMPT>\n", 1)
+		case fl == 5:
+			// a device that does not switch echo off at its password prompts (outside the guarantee)
+			sc = strings.ReplaceAll(sc, "<?>", "<!>")
 		case fl == 1 && c.Dev == "Linux":
 			// public key login: no question, no password prompt
 			sc = sc[strings.Index(sc, "Last login:"):]
@@ -892,6 +907,12 @@ func (e *c17Env) scanRun(c *runCase, o *runOutcome) {
 			}
 			sink := sinkOf(rel)
 			pred := "secret_in_sink"
+			if kind == "password" && devSSH[c.Dev] && !o.noEcho {
+				// the device echoed what was typed at its password prompt: outside the guarantee
+				// (hypothesis noEchoAtPasswordPrompt of ssh_echo_device_independent)
+				e.res.Count("scan:device-echoes-at-password-prompt(outside guarantee):" + sink)
+				continue
+			}
 			if kind == "apikey" && c.Dev == "PAN-OS" {
 				if strings.ContainsAny(c.Key, "&\n") {
 					e.res.Count("scan:key-outside-alphabet(&,newline)-visible")
@@ -1192,6 +1213,11 @@ func (e *c17Env) compareSSH(c *runCase, o *runOutcome) {
 		return
 	}
 	finished := len(m["finished"]) == 1 && m["finished"][0] == "1"
+	if len(m["echoModel"]) != 1 || m["echoModel"][0] != "1" {
+		e.res.Disagree("c17 run SSH: chunk-level echo semantics (runE) and segment semantics (run) differ", c, "", ans)
+	}
+	o.noEcho = len(m["noecho"]) == 1 && m["noecho"][0] == "1"
+	e.res.Count(fmt.Sprintf("ssh-device:noEchoAtPasswordPrompt=%v", o.noEcho))
 	wantChange := strings.Join(m["change"], "")
 	if approve && finished && !applies {
 		wantChange = "No changes applied\n"
@@ -1268,14 +1294,15 @@ func (e *c17Env) oneRun(c *runCase) {
 	if c.FaultAt >= 0 || c.Fault != "" {
 		res.Count("run-fault:" + c.Dev + ":" + c.Fault)
 	}
+	if devSSH[c.Dev] && c.Cred == "" {
+		e.compareSSH(c, o) // also tells whether the device kept to `noEchoAtPasswordPrompt`
+	}
 	e.scanRun(c, o)
 	switch {
 	case c.Dev == "PAN-OS" && c.Cred == "" && c.User == "":
 		e.comparePanos(c, o)
 	case c.Dev == "NSX" && c.Cred == "":
 		e.compareNSX(c, o)
-	case devSSH[c.Dev] && c.Cred == "":
-		e.compareSSH(c, o)
 	}
 	if len(res.Samples) < 4 && reached && c.FaultAt >= 0 {
 		res.Sample(map[string]any{"run": c, "status": o.status, "markers": markerLines(o.runlog(c))})
@@ -1374,8 +1401,8 @@ func (e *c17Env) wholeRuns() {
 				run(&runCase{Dev: dev, Cmd: cmd, FaultAt: -1, Variant: v})
 			}
 			run(&runCase{Dev: dev, Cmd: cmd, FaultAt: -1, Fault: "wrongpass"})
-			for fl := 1; fl <= 3; fl++ {
-				if thorough || (fl+ci)%2 == 0 {
+			for fl := 1; fl <= 5; fl++ {
+				if thorough || (fl+ci)%2 == 0 || fl >= 4 && ci == di {
 					run(&runCase{Dev: dev, Cmd: cmd, FaultAt: -1, Variant: 2*fl + ci%2})
 				}
 			}
@@ -1394,7 +1421,7 @@ func (e *c17Env) wholeRuns() {
 		devs := []string{"PAN-OS", "NSX", "ASA", "IOS", "Linux"}
 		for i := 0; i < 150; i++ {
 			dev := Pick(rng, devs)
-			c := &runCase{Dev: dev, Cmd: Pick(rng, runCmds), FaultAt: rng.Intn(12) - 2, Variant: rng.Intn(8)}
+			c := &runCase{Dev: dev, Cmd: Pick(rng, runCmds), FaultAt: rng.Intn(12) - 2, Variant: rng.Intn(12)}
 			if c.FaultAt < 0 {
 				c.FaultAt = -1
 			} else if devSSH[dev] {
